@@ -395,3 +395,285 @@ package modfile
 //@     decreases len(f.Use) - @idx
 //@   props C08 C15
 
+
+//@ # ---------- Add operations: the first directive for the key is updated in place (entry and line tokens together),
+//@ # later ones for the same key are removed, everything else is untouched; absent keys are appended (C08, C15) ----------
+//@ # tokens of a directive line: the verb is stored only outside blocks
+//@ spec macro TOK1(l *Line, verb string, a string) bool =
+//@     l != nil && (if l.InBlock then len(l.Token) == 1 && l.Token[0] == a else len(l.Token) == 2 && l.Token[0] == verb && l.Token[1] == a)
+//@ spec macro TOK2(l *Line, verb string, a string, b string) bool =
+//@     l != nil && (if l.InBlock then len(l.Token) == 2 && l.Token[0] == a && l.Token[1] == b else len(l.Token) == 3 && l.Token[0] == verb && l.Token[1] == a && l.Token[2] == b)
+
+//@ # distinct live entries are written on distinct lines
+//@ spec macro USE_LINES_DISTINCT(f *WorkFile) bool =
+//@     forall i int, j int :: 0 <= i && i < j && j < len(f.Use) && f.Use[i].Path != "" && f.Use[j].Path != "" ==> f.Use[i].Syntax != f.Use[j].Syntax
+//@ func (*WorkFile).AddUse
+//@   requires f != nil && f.Syntax != nil && USE_NONNIL(f) && USE_LINES_DISTINCT(f) && diskPath != ""
+//@   modifies WorkFile.Use, []*Use, Use.Path, Use.ModulePath, Use.Syntax, Line.Token, Comments.Suffix
+//@   modifies FileSyntax.Stmt, []Expr, LineBlock.Line, LineBlock.Token, []*Line, Line.InBlock
+//@   ensures result == nil
+//@   ensures [C08, C15] first_updated: forall i int :: 0 <= i && i < old(len(f.Use)) && old(f.Use[i].Path) == diskPath && (forall j int :: 0 <= j && j < i ==> old(f.Use[j].Path) != diskPath)
+//@             ==> f.Use[i].Path == diskPath && f.Use[i].ModulePath == modulePath && f.Use[i].Syntax == old(f.Use[i].Syntax) && TOK1(f.Use[i].Syntax, "use", AutoQuote(diskPath))
+//@   ensures [C08, C15] later_removed: forall i int :: 0 <= i && i < old(len(f.Use)) && old(f.Use[i].Path) == diskPath && (exists j int :: 0 <= j && j < i && old(f.Use[j].Path) == diskPath)
+//@             ==> f.Use[i].Path == "" && f.Use[i].Syntax == nil
+//@   ensures [C08, C15] others_kept: forall i int :: 0 <= i && i < old(len(f.Use)) && old(f.Use[i].Path) != diskPath
+//@             ==> f.Use[i] == old(f.Use[i]) && f.Use[i].Path == old(f.Use[i].Path) && f.Use[i].ModulePath == old(f.Use[i].ModulePath) && f.Use[i].Syntax == old(f.Use[i].Syntax)
+//@   ensures [C08, C15] added_if_absent: (forall i int :: 0 <= i && i < old(len(f.Use)) ==> old(f.Use[i].Path) != diskPath)
+//@             ==> len(f.Use) == old(len(f.Use)) + 1 && f.Use[len(f.Use)-1].Path == diskPath && f.Use[len(f.Use)-1].ModulePath == modulePath
+//@   ensures [C08, C15] not_added_if_present: (exists i int :: 0 <= i && i < old(len(f.Use)) && old(f.Use[i].Path) == diskPath) ==> len(f.Use) == old(len(f.Use))
+//@   loop 0:
+//@     invariant 0 - 1 <= @idx && @idx < len(f.Use) && f.Use == pre(f.Use) && USE_NONNIL(f) && USE_LINES_DISTINCT(f) && f.Syntax != nil
+//@     invariant need ==> (forall j int :: 0 <= j && j <= @idx ==> old(f.Use[j].Path) != diskPath)
+//@     invariant !need ==> (exists j int :: 0 <= j && j <= @idx && old(f.Use[j].Path) == diskPath)
+//@     invariant forall i int :: 0 <= i && i <= @idx && old(f.Use[i].Path) == diskPath && (forall j int :: 0 <= j && j < i ==> old(f.Use[j].Path) != diskPath)
+//@             ==> f.Use[i].Path == diskPath && f.Use[i].ModulePath == modulePath && f.Use[i].Syntax == old(f.Use[i].Syntax)
+//@     invariant forall i int :: 0 <= i && i <= @idx && old(f.Use[i].Path) == diskPath && (exists j int :: 0 <= j && j < i && old(f.Use[j].Path) == diskPath)
+//@             ==> f.Use[i].Path == "" && f.Use[i].Syntax == nil
+//@     invariant forall i int :: 0 <= i && i < len(f.Use) && (i > @idx || old(f.Use[i].Path) != diskPath)
+//@             ==> f.Use[i].Path == old(f.Use[i].Path) && f.Use[i].ModulePath == old(f.Use[i].ModulePath) && f.Use[i].Syntax == old(f.Use[i].Syntax)
+//@     invariant forall i int :: 0 <= i && i <= @idx && old(f.Use[i].Path) == diskPath && (forall j int :: 0 <= j && j < i ==> old(f.Use[j].Path) != diskPath)
+//@             ==> TOK1(f.Use[i].Syntax, "use", AutoQuote(diskPath))
+//@     decreases len(f.Use) - @idx
+//@   props C08 C15
+
+//@ spec macro GD_NONNIL(f *File) bool = (forall i int :: 0 <= i && i < len(f.Godebug) ==> f.Godebug[i] != nil && (f.Godebug[i].Key != "" ==> f.Godebug[i].Syntax != nil))
+//@     && (forall i int, j int :: 0 <= i && i < j && j < len(f.Godebug) ==> f.Godebug[i] != f.Godebug[j])
+//@ spec macro GD_LINES_DISTINCT(f *File) bool =
+//@     forall i int, j int :: 0 <= i && i < j && j < len(f.Godebug) && f.Godebug[i].Key != "" && f.Godebug[j].Key != "" ==> f.Godebug[i].Syntax != f.Godebug[j].Syntax
+//@ func (*File).addNewGodebug
+//@   requires f != nil && f.Syntax != nil
+//@   modifies File.Godebug, []*Godebug
+//@   modifies FileSyntax.Stmt, []Expr, LineBlock.Line, LineBlock.Token, []*Line, Line.Token, Line.InBlock
+//@   ensures len(f.Godebug) == old(len(f.Godebug)) + 1
+//@   ensures [C08, C15] appended: f.Godebug[len(f.Godebug)-1] != nil && fresh(f.Godebug[len(f.Godebug)-1]) && f.Godebug[len(f.Godebug)-1].Key == key && f.Godebug[len(f.Godebug)-1].Value == value && TOK1(f.Godebug[len(f.Godebug)-1].Syntax, "godebug", key + "=" + value)
+//@   ensures forall i int :: 0 <= i && i < old(len(f.Godebug)) ==> f.Godebug[i] == old(f.Godebug[i])
+//@   ensures framearr(old(f.Godebug))
+//@   props C08 C15
+
+//@ func (*File).AddGodebug
+//@   requires f != nil && f.Syntax != nil && GD_NONNIL(f) && GD_LINES_DISTINCT(f) && key != ""
+//@   modifies File.Godebug, []*Godebug, Godebug.Key, Godebug.Value, Godebug.Syntax, Line.Token, Comments.Suffix
+//@   modifies FileSyntax.Stmt, []Expr, LineBlock.Line, LineBlock.Token, []*Line, Line.InBlock
+//@   ensures result == nil
+//@   ensures [C08, C15] first_updated: forall i int :: 0 <= i && i < old(len(f.Godebug)) && old(f.Godebug[i].Key) == key && (forall j int :: 0 <= j && j < i ==> old(f.Godebug[j].Key) != key)
+//@             ==> f.Godebug[i].Key == key && f.Godebug[i].Value == value && f.Godebug[i].Syntax == old(f.Godebug[i].Syntax) && TOK1(f.Godebug[i].Syntax, "godebug", key + "=" + value)
+//@   ensures [C08, C15] later_removed: forall i int :: 0 <= i && i < old(len(f.Godebug)) && old(f.Godebug[i].Key) == key && (exists j int :: 0 <= j && j < i && old(f.Godebug[j].Key) == key)
+//@             ==> f.Godebug[i].Key == "" && f.Godebug[i].Syntax == nil
+//@   ensures [C08, C15] others_kept: forall i int :: 0 <= i && i < old(len(f.Godebug)) && old(f.Godebug[i].Key) != key
+//@             ==> f.Godebug[i] == old(f.Godebug[i]) && f.Godebug[i].Key == old(f.Godebug[i].Key) && f.Godebug[i].Value == old(f.Godebug[i].Value) && f.Godebug[i].Syntax == old(f.Godebug[i].Syntax)
+//@   ensures [C08, C15] added_if_absent: (forall i int :: 0 <= i && i < old(len(f.Godebug)) ==> old(f.Godebug[i].Key) != key)
+//@             ==> len(f.Godebug) == old(len(f.Godebug)) + 1 && f.Godebug[len(f.Godebug)-1].Key == key && f.Godebug[len(f.Godebug)-1].Value == value
+//@   ensures [C08, C15] not_added_if_present: (exists i int :: 0 <= i && i < old(len(f.Godebug)) && old(f.Godebug[i].Key) == key) ==> len(f.Godebug) == old(len(f.Godebug))
+//@   loop 0:
+//@     invariant 0 - 1 <= @idx && @idx < len(f.Godebug) && f.Godebug == pre(f.Godebug) && GD_NONNIL(f) && GD_LINES_DISTINCT(f) && f.Syntax != nil
+//@     invariant need ==> (forall j int :: 0 <= j && j <= @idx ==> old(f.Godebug[j].Key) != key)
+//@     invariant !need ==> (exists j int :: 0 <= j && j <= @idx && old(f.Godebug[j].Key) == key)
+//@     invariant forall i int :: 0 <= i && i <= @idx && old(f.Godebug[i].Key) == key && (forall j int :: 0 <= j && j < i ==> old(f.Godebug[j].Key) != key)
+//@             ==> f.Godebug[i].Key == key && f.Godebug[i].Value == value && f.Godebug[i].Syntax == old(f.Godebug[i].Syntax)
+//@     invariant forall i int :: 0 <= i && i <= @idx && old(f.Godebug[i].Key) == key && (exists j int :: 0 <= j && j < i && old(f.Godebug[j].Key) == key)
+//@             ==> f.Godebug[i].Key == "" && f.Godebug[i].Syntax == nil
+//@     invariant forall i int :: 0 <= i && i < len(f.Godebug) && (i > @idx || old(f.Godebug[i].Key) != key)
+//@             ==> f.Godebug[i].Key == old(f.Godebug[i].Key) && f.Godebug[i].Value == old(f.Godebug[i].Value) && f.Godebug[i].Syntax == old(f.Godebug[i].Syntax)
+//@     invariant forall i int :: 0 <= i && i <= @idx && old(f.Godebug[i].Key) == key && (forall j int :: 0 <= j && j < i ==> old(f.Godebug[j].Key) != key)
+//@             ==> TOK1(f.Godebug[i].Syntax, "godebug", key + "=" + value)
+//@     decreases len(f.Godebug) - @idx
+//@   props C08 C15
+
+//@ spec macro GDW_NONNIL(f *WorkFile) bool = (forall i int :: 0 <= i && i < len(f.Godebug) ==> f.Godebug[i] != nil && (f.Godebug[i].Key != "" ==> f.Godebug[i].Syntax != nil))
+//@     && (forall i int, j int :: 0 <= i && i < j && j < len(f.Godebug) ==> f.Godebug[i] != f.Godebug[j])
+//@ spec macro GDW_LINES_DISTINCT(f *WorkFile) bool =
+//@     forall i int, j int :: 0 <= i && i < j && j < len(f.Godebug) && f.Godebug[i].Key != "" && f.Godebug[j].Key != "" ==> f.Godebug[i].Syntax != f.Godebug[j].Syntax
+//@ func (*WorkFile).addNewGodebug
+//@   requires f != nil && f.Syntax != nil
+//@   modifies WorkFile.Godebug, []*Godebug
+//@   modifies FileSyntax.Stmt, []Expr, LineBlock.Line, LineBlock.Token, []*Line, Line.Token, Line.InBlock
+//@   ensures len(f.Godebug) == old(len(f.Godebug)) + 1
+//@   ensures [C08, C15] appended: f.Godebug[len(f.Godebug)-1] != nil && fresh(f.Godebug[len(f.Godebug)-1]) && f.Godebug[len(f.Godebug)-1].Key == key && f.Godebug[len(f.Godebug)-1].Value == value && TOK1(f.Godebug[len(f.Godebug)-1].Syntax, "godebug", key + "=" + value)
+//@   ensures forall i int :: 0 <= i && i < old(len(f.Godebug)) ==> f.Godebug[i] == old(f.Godebug[i])
+//@   ensures framearr(old(f.Godebug))
+//@   props C08 C15
+
+//@ func (*WorkFile).AddGodebug
+//@   requires f != nil && f.Syntax != nil && GDW_NONNIL(f) && GDW_LINES_DISTINCT(f) && key != ""
+//@   modifies WorkFile.Godebug, []*Godebug, Godebug.Key, Godebug.Value, Godebug.Syntax, Line.Token, Comments.Suffix
+//@   modifies FileSyntax.Stmt, []Expr, LineBlock.Line, LineBlock.Token, []*Line, Line.InBlock
+//@   ensures result == nil
+//@   ensures [C08, C15] first_updated: forall i int :: 0 <= i && i < old(len(f.Godebug)) && old(f.Godebug[i].Key) == key && (forall j int :: 0 <= j && j < i ==> old(f.Godebug[j].Key) != key)
+//@             ==> f.Godebug[i].Key == key && f.Godebug[i].Value == value && f.Godebug[i].Syntax == old(f.Godebug[i].Syntax) && TOK1(f.Godebug[i].Syntax, "godebug", key + "=" + value)
+//@   ensures [C08, C15] later_removed: forall i int :: 0 <= i && i < old(len(f.Godebug)) && old(f.Godebug[i].Key) == key && (exists j int :: 0 <= j && j < i && old(f.Godebug[j].Key) == key)
+//@             ==> f.Godebug[i].Key == "" && f.Godebug[i].Syntax == nil
+//@   ensures [C08, C15] others_kept: forall i int :: 0 <= i && i < old(len(f.Godebug)) && old(f.Godebug[i].Key) != key
+//@             ==> f.Godebug[i] == old(f.Godebug[i]) && f.Godebug[i].Key == old(f.Godebug[i].Key) && f.Godebug[i].Value == old(f.Godebug[i].Value) && f.Godebug[i].Syntax == old(f.Godebug[i].Syntax)
+//@   ensures [C08, C15] added_if_absent: (forall i int :: 0 <= i && i < old(len(f.Godebug)) ==> old(f.Godebug[i].Key) != key)
+//@             ==> len(f.Godebug) == old(len(f.Godebug)) + 1 && f.Godebug[len(f.Godebug)-1].Key == key && f.Godebug[len(f.Godebug)-1].Value == value
+//@   ensures [C08, C15] not_added_if_present: (exists i int :: 0 <= i && i < old(len(f.Godebug)) && old(f.Godebug[i].Key) == key) ==> len(f.Godebug) == old(len(f.Godebug))
+//@   loop 0:
+//@     invariant 0 - 1 <= @idx && @idx < len(f.Godebug) && f.Godebug == pre(f.Godebug) && GDW_NONNIL(f) && GDW_LINES_DISTINCT(f) && f.Syntax != nil
+//@     invariant need ==> (forall j int :: 0 <= j && j <= @idx ==> old(f.Godebug[j].Key) != key)
+//@     invariant !need ==> (exists j int :: 0 <= j && j <= @idx && old(f.Godebug[j].Key) == key)
+//@     invariant forall i int :: 0 <= i && i <= @idx && old(f.Godebug[i].Key) == key && (forall j int :: 0 <= j && j < i ==> old(f.Godebug[j].Key) != key)
+//@             ==> f.Godebug[i].Key == key && f.Godebug[i].Value == value && f.Godebug[i].Syntax == old(f.Godebug[i].Syntax)
+//@     invariant forall i int :: 0 <= i && i <= @idx && old(f.Godebug[i].Key) == key && (exists j int :: 0 <= j && j < i && old(f.Godebug[j].Key) == key)
+//@             ==> f.Godebug[i].Key == "" && f.Godebug[i].Syntax == nil
+//@     invariant forall i int :: 0 <= i && i < len(f.Godebug) && (i > @idx || old(f.Godebug[i].Key) != key)
+//@             ==> f.Godebug[i].Key == old(f.Godebug[i].Key) && f.Godebug[i].Value == old(f.Godebug[i].Value) && f.Godebug[i].Syntax == old(f.Godebug[i].Syntax)
+//@     invariant forall i int :: 0 <= i && i <= @idx && old(f.Godebug[i].Key) == key && (forall j int :: 0 <= j && j < i ==> old(f.Godebug[j].Key) != key)
+//@             ==> TOK1(f.Godebug[i].Syntax, "godebug", key + "=" + value)
+//@     decreases len(f.Godebug) - @idx
+//@   props C08 C15
+
+//@ # ---------- require directives ----------
+//@ func (*Require).setIndirect
+//@   trusted "comment surgery on the line's suffix comment (strings.Fields/TrimSpace/Index); summary: sets the flag, touches only the suffix comment of r's line"
+//@   requires r != nil && r.Syntax != nil
+//@   modifies Require.Indirect, Comments.Suffix, []Comment, Comment.Token
+//@   allocates
+//@   ensures r.Indirect == indirect
+//@   ensures forall q *Require :: q != r ==> q.Indirect == old(q.Indirect)
+//@   props C08 C15 C16
+
+//@ spec macro RQ_NONNIL(f *File) bool = (forall i int :: 0 <= i && i < len(f.Require) ==> f.Require[i] != nil && (f.Require[i].Mod.Path != "" ==> f.Require[i].Syntax != nil))
+//@     && (forall i int, j int :: 0 <= i && i < j && j < len(f.Require) ==> f.Require[i] != f.Require[j])
+//@ spec macro RQ_LINES_DISTINCT(f *File) bool =
+//@     forall i int, j int :: 0 <= i && i < j && j < len(f.Require) && f.Require[i].Mod.Path != "" && f.Require[j].Mod.Path != "" ==> f.Require[i].Syntax != f.Require[j].Syntax
+
+//@ func (*File).AddNewRequire
+//@   requires f != nil && f.Syntax != nil
+//@   modifies File.Require, []*Require, Require.Indirect, Comments.Suffix, []Comment, Comment.Token
+//@   modifies FileSyntax.Stmt, []Expr, LineBlock.Line, LineBlock.Token, []*Line, Line.Token, Line.InBlock
+//@   ensures len(f.Require) == old(len(f.Require)) + 1
+//@   ensures [C08, C15] appended: f.Require[len(f.Require)-1] != nil && fresh(f.Require[len(f.Require)-1]) && f.Require[len(f.Require)-1].Mod.Path == path && f.Require[len(f.Require)-1].Mod.Version == vers
+//@             && f.Require[len(f.Require)-1].Indirect == indirect && TOK2(f.Require[len(f.Require)-1].Syntax, "require", AutoQuote(path), vers)
+//@   ensures forall i int :: 0 <= i && i < old(len(f.Require)) ==> f.Require[i] == old(f.Require[i])
+//@   ensures forall q *Require :: !fresh(q) ==> q.Indirect == old(q.Indirect)
+//@   ensures framearr(old(f.Require))
+//@   props C08 C15 C16
+
+//@ func (*File).AddRequire
+//@   requires f != nil && f.Syntax != nil && RQ_NONNIL(f) && RQ_LINES_DISTINCT(f) && path != ""
+//@   modifies File.Require, []*Require, Require.Mod, Require.Indirect, Require.Syntax, module.Version.Path, module.Version.Version, Line.Token, Comments.Suffix, []Comment, Comment.Token
+//@   modifies FileSyntax.Stmt, []Expr, LineBlock.Line, LineBlock.Token, []*Line, Line.InBlock
+//@   ensures result == nil
+//@   ensures [C08, C15] first_updated: forall i int :: 0 <= i && i < old(len(f.Require)) && old(f.Require[i].Mod.Path) == path && (forall j int :: 0 <= j && j < i ==> old(f.Require[j].Mod.Path) != path)
+//@             ==> f.Require[i].Mod.Path == path && f.Require[i].Mod.Version == vers && f.Require[i].Syntax == old(f.Require[i].Syntax) && TOK2(f.Require[i].Syntax, "require", AutoQuote(path), vers)
+//@   ensures [C08, C15] later_removed: forall i int :: 0 <= i && i < old(len(f.Require)) && old(f.Require[i].Mod.Path) == path && (exists j int :: 0 <= j && j < i && old(f.Require[j].Mod.Path) == path)
+//@             ==> f.Require[i].Mod.Path == "" && f.Require[i].Syntax == nil
+//@   ensures [C08, C15] others_kept: forall i int :: 0 <= i && i < old(len(f.Require)) && old(f.Require[i].Mod.Path) != path
+//@             ==> f.Require[i] == old(f.Require[i]) && f.Require[i].Mod.Path == old(f.Require[i].Mod.Path) && f.Require[i].Mod.Version == old(f.Require[i].Mod.Version) && f.Require[i].Indirect == old(f.Require[i].Indirect) && f.Require[i].Syntax == old(f.Require[i].Syntax)
+//@   ensures [C08, C15] added_if_absent: (forall i int :: 0 <= i && i < old(len(f.Require)) ==> old(f.Require[i].Mod.Path) != path)
+//@             ==> len(f.Require) == old(len(f.Require)) + 1 && f.Require[len(f.Require)-1].Mod.Path == path && f.Require[len(f.Require)-1].Mod.Version == vers && !f.Require[len(f.Require)-1].Indirect
+//@   ensures [C08, C15] not_added_if_present: (exists i int :: 0 <= i && i < old(len(f.Require)) && old(f.Require[i].Mod.Path) == path) ==> len(f.Require) == old(len(f.Require))
+//@   loop 0:
+//@     invariant 0 - 1 <= @idx && @idx < len(f.Require) && f.Require == pre(f.Require) && RQ_NONNIL(f) && RQ_LINES_DISTINCT(f) && f.Syntax != nil
+//@     invariant need ==> (forall j int :: 0 <= j && j <= @idx ==> old(f.Require[j].Mod.Path) != path)
+//@     invariant !need ==> (exists j int :: 0 <= j && j <= @idx && old(f.Require[j].Mod.Path) == path)
+//@     invariant forall i int :: 0 <= i && i <= @idx && old(f.Require[i].Mod.Path) == path && (forall j int :: 0 <= j && j < i ==> old(f.Require[j].Mod.Path) != path)
+//@             ==> f.Require[i].Mod.Path == path && f.Require[i].Mod.Version == vers && f.Require[i].Syntax == old(f.Require[i].Syntax)
+//@     invariant forall i int :: 0 <= i && i <= @idx && old(f.Require[i].Mod.Path) == path && (exists j int :: 0 <= j && j < i && old(f.Require[j].Mod.Path) == path)
+//@             ==> f.Require[i].Mod.Path == "" && f.Require[i].Syntax == nil
+//@     invariant forall i int :: 0 <= i && i < len(f.Require) && (i > @idx || old(f.Require[i].Mod.Path) != path)
+//@             ==> f.Require[i].Mod.Path == old(f.Require[i].Mod.Path) && f.Require[i].Mod.Version == old(f.Require[i].Mod.Version) && f.Require[i].Indirect == old(f.Require[i].Indirect) && f.Require[i].Syntax == old(f.Require[i].Syntax)
+//@     invariant forall i int :: 0 <= i && i <= @idx && old(f.Require[i].Mod.Path) == path && (forall j int :: 0 <= j && j < i ==> old(f.Require[j].Mod.Path) != path)
+//@             ==> TOK2(f.Require[i].Syntax, "require", AutoQuote(path), vers)
+//@     decreases len(f.Require) - @idx
+//@   props C08 C15
+
+//@ # ---------- exclude, tool, and the singleton statements ----------
+//@ spec macro EX_NONNIL(f *File) bool = forall i int :: 0 <= i && i < len(f.Exclude) ==> f.Exclude[i] != nil
+//@ func (*File).AddExclude
+//@   requires f != nil && f.Syntax != nil && EX_NONNIL(f)
+//@   modifies File.Exclude, []*Exclude
+//@   modifies FileSyntax.Stmt, []Expr, LineBlock.Line, LineBlock.Token, []*Line, Line.Token, Line.InBlock
+//@   ensures [C08, C15] idempotent: (exists i int :: 0 <= i && i < old(len(f.Exclude)) && old(f.Exclude[i].Mod.Path) == path && old(f.Exclude[i].Mod.Version) == vers) ==> len(f.Exclude) == old(len(f.Exclude))
+//@   ensures [C08, C15] rejected_unchanged: result != nil ==> len(f.Exclude) == old(len(f.Exclude))
+//@   ensures [C08, C15] appended: result == nil && !(exists i int :: 0 <= i && i < old(len(f.Exclude)) && old(f.Exclude[i].Mod.Path) == path && old(f.Exclude[i].Mod.Version) == vers)
+//@             ==> len(f.Exclude) == old(len(f.Exclude)) + 1 && f.Exclude[len(f.Exclude)-1] != nil && f.Exclude[len(f.Exclude)-1].Mod.Path == path && f.Exclude[len(f.Exclude)-1].Mod.Version == vers
+//@                 && TOK2(f.Exclude[len(f.Exclude)-1].Syntax, "exclude", AutoQuote(path), vers)
+//@   ensures [C08, C15] others_kept: forall i int :: 0 <= i && i < old(len(f.Exclude)) ==> f.Exclude[i] == old(f.Exclude[i])
+//@   ensures framearr(old(f.Exclude))
+//@   loop 0:
+//@     invariant 0 - 1 <= @idx && @idx < len(f.Exclude) && f.Exclude == pre(f.Exclude) && EX_NONNIL(f)
+//@     invariant forall j int :: 0 <= j && j <= @idx ==> !(f.Exclude[j].Mod.Path == path && f.Exclude[j].Mod.Version == vers)
+//@     decreases len(f.Exclude) - @idx
+//@   props C08 C15
+
+//@ func (*File).DropGoStmt
+//@   requires f != nil
+//@   modifies File.Go, Line.Token, Comments.Suffix
+//@   ensures [C08, C15] dropped: f.Go == nil && (old(f.Go) != nil && old(f.Go).Syntax != nil ==> len(old(f.Go).Syntax.Token) == 0)
+//@   props C08 C15
+//@ func (*File).DropToolchainStmt
+//@   requires f != nil
+//@   modifies File.Toolchain, Line.Token, Comments.Suffix
+//@   ensures [C08, C15] dropped: f.Toolchain == nil && (old(f.Toolchain) != nil && old(f.Toolchain).Syntax != nil ==> len(old(f.Toolchain).Syntax.Token) == 0)
+//@   props C08 C15
+//@ func (*WorkFile).DropGoStmt
+//@   requires f != nil
+//@   modifies WorkFile.Go, Line.Token, Comments.Suffix
+//@   ensures [C08, C15] dropped: f.Go == nil && (old(f.Go) != nil && old(f.Go).Syntax != nil ==> len(old(f.Go).Syntax.Token) == 0)
+//@   props C08 C15
+//@ func (*WorkFile).DropToolchainStmt
+//@   requires f != nil
+//@   modifies WorkFile.Toolchain, Line.Token, Comments.Suffix
+//@   ensures [C08, C15] dropped: f.Toolchain == nil && (old(f.Toolchain) != nil && old(f.Toolchain).Syntax != nil ==> len(old(f.Toolchain).Syntax.Token) == 0)
+//@   props C08 C15
+
+//@ func (*File).AddGoStmt
+//@   requires f != nil && (f.Go != nil ==> f.Go.Syntax != nil && f.Syntax != nil) && (f.Module != nil && f.Module.Syntax != nil ==> f.Syntax != nil)
+//@   modifies File.Go, File.Syntax, Go.Version, Go.Syntax, Line.Token
+//@   modifies FileSyntax.Stmt, []Expr, LineBlock.Line, LineBlock.Token, []*Line, Line.InBlock
+//@   ensures [C08, C15] rejected_unchanged: result != nil ==> f.Go == old(f.Go)
+//@   ensures [C08, C15] set: result == nil ==> f.Go != nil && f.Go.Version == version && TOK1(f.Go.Syntax, "go", version)
+//@   ensures [C08, C15] updated_in_place: result == nil && old(f.Go) != nil ==> f.Go == old(f.Go) && f.Go.Syntax == old(f.Go.Syntax)
+//@   props C08 C15
+//@ func (*File).AddToolchainStmt
+//@   requires f != nil && f.Syntax != nil && (f.Toolchain != nil ==> f.Toolchain.Syntax != nil)
+//@   modifies File.Toolchain, Toolchain.Name, Toolchain.Syntax, Line.Token
+//@   modifies FileSyntax.Stmt, []Expr, LineBlock.Line, LineBlock.Token, []*Line, Line.InBlock
+//@   ensures [C08, C15] rejected_unchanged: result != nil ==> f.Toolchain == old(f.Toolchain)
+//@   ensures [C08, C15] set: result == nil ==> f.Toolchain != nil && f.Toolchain.Name == name && TOK1(f.Toolchain.Syntax, "toolchain", name)
+//@   ensures [C08, C15] updated_in_place: result == nil && old(f.Toolchain) != nil ==> f.Toolchain == old(f.Toolchain) && f.Toolchain.Syntax == old(f.Toolchain.Syntax)
+//@   props C08 C15
+//@ func (*File).AddModuleStmt
+//@   requires f != nil && (f.Module != nil ==> f.Module.Syntax != nil)
+//@   modifies File.Module, File.Syntax, Module.Mod, Module.Syntax, module.Version.Path, Line.Token
+//@   modifies FileSyntax.Stmt, []Expr, LineBlock.Line, LineBlock.Token, []*Line, Line.InBlock
+//@   ensures [C08, C15] set: result == nil && f.Module != nil && f.Module.Mod.Path == path && TOK1(f.Module.Syntax, "module", AutoQuote(path))
+//@   ensures [C08, C15] updated_in_place: old(f.Module) != nil ==> f.Module == old(f.Module) && f.Module.Syntax == old(f.Module.Syntax)
+//@   props C08 C15
+
+//@ # go.work: new go / toolchain statements are spliced into the statement list; every statement that was there stays, in order
+//@ func (*WorkFile).AddGoStmt
+//@   requires f != nil && f.Syntax != nil && (f.Go != nil ==> f.Go.Syntax != nil)
+//@   modifies WorkFile.Go, Go.Version, Go.Syntax, Line.Token, FileSyntax.Stmt, []Expr
+//@   ensures [C08, C15] rejected_unchanged: result != nil ==> f.Go == old(f.Go) && len(f.Syntax.Stmt) == old(len(f.Syntax.Stmt))
+//@   ensures [C08, C15] set: result == nil ==> f.Go != nil && f.Go.Version == version && TOK1(f.Go.Syntax, "go", version)
+//@   ensures [C08, C15] updated_in_place: result == nil && old(f.Go) != nil ==> f.Go == old(f.Go) && f.Go.Syntax == old(f.Go.Syntax) && len(f.Syntax.Stmt) == old(len(f.Syntax.Stmt))
+//@   ensures [C08, C15] inserted_one: result == nil && old(f.Go) == nil ==> len(f.Syntax.Stmt) == old(len(f.Syntax.Stmt)) + 1
+//@   ensures [C08, C15] new_line_in_tree: result == nil && old(f.Go) == nil ==> (exists p int {pos(f.Syntax.Stmt, p)} :: 0 <= p && p < len(f.Syntax.Stmt) && ISLINE(f.Syntax.Stmt[p]) && ifaceptr(f.Syntax.Stmt[p]) == f.Go.Syntax)
+//@   ensures [C08, C15] old_statements_kept: result == nil && old(f.Go) == nil ==> (forall k int :: 0 <= k && k < old(len(f.Syntax.Stmt)) ==> f.Syntax.Stmt[k] == old(f.Syntax.Stmt[k]) || f.Syntax.Stmt[k+1] == old(f.Syntax.Stmt[k]))
+//@   loop 0:
+//@     invariant 0 <= i && i <= len(f.Syntax.Stmt) && f.Syntax.Stmt == pre(f.Syntax.Stmt) && stmt != nil && fresh(stmt) && f.Go != nil && f.Go.Syntax == stmt && f.Go.Version == version
+//@     invariant len(stmt.Token) == 2 && stmt.Token[0] == "go" && stmt.Token[1] == version && !stmt.InBlock
+//@     decreases len(f.Syntax.Stmt) - i
+//@   props C08 C15
+
+//@ func (*WorkFile).AddToolchainStmt
+//@   requires f != nil && f.Syntax != nil && (f.Toolchain != nil ==> f.Toolchain.Syntax != nil)
+//@   requires forall k int :: 0 <= k && k < len(f.Syntax.Stmt) ==> (ISLINE(f.Syntax.Stmt[k]) ==> ifaceptr(f.Syntax.Stmt[k]) != 0)
+//@   modifies WorkFile.Toolchain, Toolchain.Name, Toolchain.Syntax, Line.Token, FileSyntax.Stmt, []Expr
+//@   ensures [C08, C15] rejected_unchanged: result != nil ==> f.Toolchain == old(f.Toolchain) && len(f.Syntax.Stmt) == old(len(f.Syntax.Stmt))
+//@   ensures [C08, C15] set: result == nil ==> f.Toolchain != nil && f.Toolchain.Name == name && TOK1(f.Toolchain.Syntax, "toolchain", name)
+//@   ensures [C08, C15] updated_in_place: result == nil && old(f.Toolchain) != nil ==> f.Toolchain == old(f.Toolchain) && f.Toolchain.Syntax == old(f.Toolchain.Syntax) && len(f.Syntax.Stmt) == old(len(f.Syntax.Stmt))
+//@   ensures [C08, C15] inserted_one: result == nil && old(f.Toolchain) == nil ==> len(f.Syntax.Stmt) == old(len(f.Syntax.Stmt)) + 1
+//@   ensures [C08, C15] new_line_in_tree: result == nil && old(f.Toolchain) == nil ==> (exists p int {pos(f.Syntax.Stmt, p)} :: 0 <= p && p < len(f.Syntax.Stmt) && ISLINE(f.Syntax.Stmt[p]) && ifaceptr(f.Syntax.Stmt[p]) == f.Toolchain.Syntax)
+//@   ensures [C08, C15] old_statements_kept: result == nil && old(f.Toolchain) == nil ==> (forall k int :: 0 <= k && k < old(len(f.Syntax.Stmt)) ==> f.Syntax.Stmt[k] == old(f.Syntax.Stmt[k]) || f.Syntax.Stmt[k+1] == old(f.Syntax.Stmt[k]))
+//@   loop 0:
+//@     invariant 0 <= i && i <= len(f.Syntax.Stmt) && f.Syntax.Stmt == pre(f.Syntax.Stmt) && stmt != nil && fresh(stmt) && f.Toolchain != nil && f.Toolchain.Syntax == stmt && f.Toolchain.Name == name
+//@     invariant len(stmt.Token) == 2 && stmt.Token[0] == "toolchain" && stmt.Token[1] == name && !stmt.InBlock
+//@     decreases len(f.Syntax.Stmt) - i
+//@   loop 1:
+//@     invariant 0 <= i && i <= len(f.Syntax.Stmt) && f.Syntax.Stmt == pre(f.Syntax.Stmt) && stmt != nil && fresh(stmt) && f.Toolchain != nil && f.Toolchain.Syntax == stmt && f.Toolchain.Name == name
+//@     invariant len(stmt.Token) == 2 && stmt.Token[0] == "toolchain" && stmt.Token[1] == name && !stmt.InBlock
+//@     decreases len(f.Syntax.Stmt) - i
+//@   props C08 C15
